@@ -149,6 +149,8 @@ def bindParams (nenv : Nat) : List (String × Obj) → M (Option Obj)
   | [] => pure none
   | (p, a) :: rest => do
     let pval ← valueOf a
+    -- binding an all-caps parameter depends on whether an outer constant of that name exists, now or later
+    if isConstant p then triggerNoCache nenv
     let oerr ← createOrSet nenv p pval true
     if oerr.isError then pure (some oerr) else bindParams nenv rest
 
@@ -624,7 +626,8 @@ def applyFunction : Nat → Obj → List Obj → M Obj
       | .ok nenv =>
         let curState ← curEnv
         modify fun st => { st with cur := nenv, outs := [] :: st.outs }
-        let before := (← getFrame nenv).getMiss
+        -- the frame is new: the misses made while binding the parameters count too
+        let before := 0
         let res ← eval fuel f.body
         let fr ← getFrame nenv
         let after := fr.getMiss
